@@ -25,6 +25,7 @@ var c14contents = map[string][]byte{
 	"A":  pattern("pos", 100, c14L),                                                             // 2 leaves
 	"A'": append(append([]byte(nil), pattern("pos", 64, c14L)...), []byte("different tail")...), // shares A's first leaf
 	"C":  []byte("small"),
+	"B":  pattern("pos", 12*c14L, c14L), // 12 leaves, the first shared with A (C13 only: an index of more than 10 chunks)
 }
 
 type c14step struct {
